@@ -602,6 +602,12 @@ int websocket_upgrade_on_header_field(http_parser *p, const char *at, size_t len
 		return 0;
 	}
 
+	static const char upgrade[] = "Upgrade";
+	if ((sizeof(upgrade) - 1 == length) && (jet_strncasecmp(at, upgrade, length) == 0)) {
+		s->current_header_field = HEADER_UPGRADE;
+		return 0;
+	}
+
 	return 0;
 }
 
@@ -625,6 +631,21 @@ static int check_websocket_version(const char *at, size_t length)
 		return 0;
 	} else {
 		return -1;
+	}
+}
+
+static void check_upgrade_value(struct websocket *s, const char *at, size_t length)
+{
+	static const char websocket[] = "websocket";
+	size_t token_length = sizeof(websocket) - 1;
+	for (size_t i = 0; i + token_length <= length; i++) {
+		bool starts_token = (i == 0) || (at[i - 1] == ',') || isspace((unsigned char)at[i - 1]);
+		size_t end = i + token_length;
+		bool ends_token = (end == length) || (at[end] == ',') || (at[end] == '/') || isspace((unsigned char)at[end]);
+		if (starts_token && ends_token && (jet_strncasecmp(at + i, websocket, token_length) == 0)) {
+			s->upgrade_to_websocket = true;
+			return;
+		}
 	}
 }
 
@@ -869,10 +890,20 @@ int websocket_upgrade_on_header_value(http_parser *p, const char *at, size_t len
 	switch (s->current_header_field) {
 	case HEADER_SEC_WEBSOCKET_KEY:
 		ret = save_websocket_key(s->sec_web_socket_key, at, length);
+		if (ret == 0) {
+			s->key_received = true;
+		}
 		break;
 
 	case HEADER_SEC_WEBSOCKET_VERSION:
 		ret = check_websocket_version(at, length);
+		if (ret == 0) {
+			s->version_received = true;
+		}
+		break;
+
+	case HEADER_UPGRADE:
+		check_upgrade_value(s, at, length);
 		break;
 
 	case HEADER_SEC_WEBSOCKET_PROTOCOL:
@@ -903,6 +934,10 @@ int websocket_upgrade_on_headers_complete(http_parser *parser)
 
 	struct http_connection *connection = container_of(parser, struct http_connection, parser);
 	if (!parser->upgrade) {
+		return -1;
+	}
+	const struct websocket *s = connection->parser.data;
+	if (!s->upgrade_to_websocket || !s->key_received || !s->version_received) {
 		return -1;
 	}
 	int ret = send_upgrade_response(connection);
